@@ -69,6 +69,16 @@ def malformed_quoted():
             for ch in ["é", "😀", "中", "\u0301"]:
                 outs.append(q + "a" * k + ch * 12)
                 outs.append("foo." + q + ch * 3 + "b" * k + ch * 5)
+    # the CONTENT of a JSON literal / quoted identifier must be JSON: raw control characters inside a string, and white space other than
+    # space / tab / LF / CR around the value, are errors for every shape of value
+    for ctl in ["\t", "\n", "\r", "\x00", "\x01", "\x1f", "\x0b", "\x0c", "\x7f"]:
+        for shape in ['`"a%sb"`', '`"%s"`', '`["a%sb"]`', '`{"k": "a%sb"}`', '` "x%s" `', '"a%sb"', '"%s"', 'a."x%s" | b']:
+            outs.append(shape % ctl)
+    for ws in ["\u00a0", "\u2003", "\x0b", "\x0c", "\ufeff", "\u2028", "\u0085", "\u3000", "\u200b", " ", "\t", "\n", "\r"]:
+        for val in ['"a"', "true", "1", "[1]", "{}", "null"]:
+            outs.append("`" + ws + val + "`")
+            outs.append("`" + val + ws + "`")
+            outs.append("`[" + ws + val + ws + "]`")
     return outs
 
 
@@ -144,6 +154,30 @@ def gen_eval(ctx):
         for e in ["reverse(a)", "length(a)", "to_string(a)", "to_number(a)", "to_array(a)", "join(a, [a, a, a])", "sort([a, 'b', a])", "type(a)", "a.b", "a[0]", "a[::-1]",
                   "contains(a, a)", "starts_with(a, a)", "ends_with(a, a)", "max_by([a, a], &@)", "{k: a}.k", "[?a]", "not_null(a)", "keys({k: a})", "merge({k: a}, {j: a})"]:
             out.append((e, d))
+    # strings handed to to_number: everything another number parser (Rust's, C's) would accept although JSON does not — non-finite spellings,
+    # out-of-range exponents, hexadecimal, digit separators — in any case, signed, padded
+    for body in ["inf", "infinity", "nan", "Infinity", "NaN", "INF", "iNf", "1e400", "1E+999", "1.8e308", "1e309", "4.9e-325", "1e-400", "0x10", "1_000", "1e", ".5", "5.",
+                 "0b1", "1f", "1d", "١", "９", "1e+", "--1", "+-1", "1 2", "", " ", "e", "-", "+", ".", "0e0", "-0e-0", "1" + "0" * 400, "0." + "0" * 400 + "1", "1e1e1"]:
+        for sign in ["", "-", "+"]:
+            for padl, padr in [("", ""), (" ", ""), ("", "\n")]:
+                t = padl + sign + body + padr
+                out.append(("to_number(@)", G.enc_str(t)))
+                out.append(("map(&to_number(@), @)", "[ " + G.enc_str(t) + " u1 ]"))
+    # functions that evaluate expression references, nested in each other and in themselves (anything kept per function across the evaluation of
+    # its own expression reference — scratch buffers, borrowed cells, locks — is re-entered here)
+    byf = ["sort_by", "max_by", "min_by", "map"]
+    nd = "[ { s61 u2 s6d [ { s61 u3 } { s61 u1 } ] } { s61 u1 s6d [ { s61 u5 } ] } { s61 u3 s6d [ ] } ]"
+    def call(fn, body, arr):
+        return "map(&%s, %s)" % (body, arr) if fn == "map" else "%s(%s, &%s)" % (fn, arr, body)
+    for f1 in byf:
+        for f2 in byf:
+            inner = call(f2, "a", "m")
+            sel = {"sort_by": "[0].a", "max_by": ".a", "min_by": ".a", "map": "[0]"}[f2]
+            out.append((call(f1, inner + sel, "@"), nd))
+            out.append((call(f1, "not_null(" + inner + sel + ", `0`)", "@"), nd))
+            out.append((call(f1, "a", call(f2, "a", "@") if f2 in ("sort_by",) else "@"), nd))
+            for f3 in byf:
+                out.append((call(f1, "not_null(" + call(f2, "not_null(" + call(f3, "a", "m") + "[0].a, `0`)" if f3 in ("sort_by", "map") else "a", "m") + sel + ", `0`)", "@"), nd))
     eg = G.ExprGen(rng, funcs=True)
     for _ in range(2000 if q else 300000):
         out.append((G.spell(rng, eg.expr()), rng.choice(big) if rng.random() < 0.2 else G.rand_doc(rng, 3)))
